@@ -112,7 +112,10 @@ def run_case(case):
         in_send, in_recv = anyio.create_memory_object_stream(math.inf)
         out_send, out_recv = anyio.create_memory_object_stream(math.inf)
         writes = []
-        ctx = {"id": _idval(case["id"], {}) if case.get("id") is not None and not case.get("helper") else None, "tok": None}
+        # a caller-supplied id is known up front; a falsy one ("" / 0) makes send_message generate
+        # its own, so the id is then read from the request that is actually written
+        preset = _idval(case["id"], {}) if case.get("id") is not None and not case.get("helper") else None
+        ctx = {"id": preset if preset else None, "tok": None}
 
         def drain():
             while True:
